@@ -142,8 +142,10 @@ def gen_seq_def(rng, idx=0):
     elif r < 0.7:
         d['end'] = gen_sd(rng, SEQ_END_EMPTY)
     for part in ('start', 'body', 'end'):
-        if d.get(part) and rng.random() < 0.85:
-            d[part]['store'] = True
+        # marker-only parts (store_result_contents=False) are results of the sequence like any
+        # other: about one part in five does not store its contents
+        if d.get(part):
+            d[part]['store'] = rng.random() < 0.8
     return d
 
 
